@@ -127,6 +127,50 @@ def bombs(ctx, res):
     res.coverage_extra["bomb_wall_s_max"] = max(walls) if walls else 0
 
 
+W64 = {1, 6, 7, 10, 19}          # positions of the 64-bit quantities among the 22 numbers (order of Scan.hist / Output.contents)
+
+
+def saturated_rendering(ctx, res, rng):
+    """A saturated quantity is shown as the infinity sign with the highest level of concern whatever the threshold, and JSON
+    carries the capacity: HistorySize.TableString / JSON (apidriver) on vectors with a chosen subset of saturated fields."""
+    quick = ctx["tier"] == "quick"
+    reqs, meta = [], []
+    thresholds = ["0", "1", "30", "31", "5000", "100000", "3e6", "1e9", "1e12", "1e300"]
+    subsets = [[i] for i in range(22)] + [sorted(rng.sample(range(22), rng.randrange(2, 8))) for _ in range(10 if quick else 200)]
+    for sub in subsets:
+        v = [rng.randrange(0, 50) for _ in range(22)]
+        for i in sub:
+            v[i] = C64 if i in W64 else C32
+        for th in (thresholds if len(sub) == 1 else rng.sample(thresholds, 3)):
+            reqs.append("table %s full %s -" % (th, ",".join(map(str, v))))
+            meta.append((sub, th, v))
+    out = vlib.batch(ctx["bins"]["api"], reqs)
+    for (sub, th, v), o in zip(meta, out):
+        res.case(("render", tuple(v), th), True)
+        parts = dict(p.split(":", 1) for p in o.split() if ":" in p)
+        if "T" not in parts:
+            res.violations.append(vlib.Violation("rendering a saturated measurement failed: " + o[:200], {"threshold": th, "values": v}))
+            continue
+        tbl = bytes.fromhex(parts["T"]).decode("utf-8", "replace")
+        rows = [l for l in tbl.splitlines() if "\u221e" in l]
+        good = [l for l in rows if "!" * 30 in l]
+        if len(good) != len(sub):
+            res.violations.append(vlib.Violation(
+                "a saturated quantity is not shown as the infinity sign at the highest level of concern", {"threshold": th, "values": v,
+                                                                                                     "saturated_positions": sub},
+                expected="%d rows with the infinity sign and 30 exclamation marks" % len(sub), observed=tbl[:1500]))
+            continue
+        import json as _json
+        j1 = _json.loads(bytes.fromhex(parts["J1"]))
+        import scenario as S
+        for i in sub:
+            if j1.get(S.HIST_KEYS[i]) != v[i]:
+                res.violations.append(vlib.Violation("JSON does not carry the capacity for a saturated quantity",
+                                                     {"threshold": th, "values": v, "field": S.HIST_KEYS[i]},
+                                                     expected=v[i], observed=j1.get(S.HIST_KEYS[i])))
+    res.coverage_extra["saturated_rendering_cases"] = len(reqs)
+
+
 def run(ctx):
     rng = random.Random(ctx["seed"])
     res = vlib.Result()
@@ -185,6 +229,7 @@ def run(ctx):
             res.violations.append(vlib.Violation(
                 "saturating arithmetic differs from min(a+b, cap) / max", {"request": api},
                 expected=o2, observed=o1, cls=None))
+    saturated_rendering(ctx, res, rng)
     bombs(ctx, res)
     res.coverage_extra["plus_cases_reaching_cap"] = overflowing
     res.coverage_extra["input_distribution"] = {"requests": len(reqs), "random_pairs_per_width": n_rand}
